@@ -50,6 +50,11 @@
 // the next turn) and uses them after the parameters were rebound: every turn
 // must have its own bindings in every configuration (transparency).
 //
+// An eighth family ("forward") makes the recursive call through a
+// call-forwarding builtin passed AS THE TARGET of funcall/apply ((funcall
+// 'apply 'f (list ..)), (apply 'funcall 'f ..), unpack, by symbol, by value,
+// computed, two levels deep): constant stack and transparency.
+//
 // No expected value is written down except the index of the innermost handler
 // (computed from N).
 package c02
@@ -386,7 +391,7 @@ func checkGroup(p *pool, g group, runs []nrun, each func(Case, []string, progRes
 	}
 	// (2) constant stack: only for shapes whose call is a tail call all the way
 	// (not the stack-growth walks: their N is the recursion DEPTH, not a number of turns)
-	if (g.Family == "tail" || g.Family == "multiform" || g.Family == "chain") && g.Container != "walk" && len(hs) >= 2 {
+	if (g.Family == "tail" || g.Family == "multiform" || g.Family == "chain" || g.Family == "forward") && g.Container != "walk" && len(hs) >= 2 {
 		measures := []struct {
 			name string
 			f    func(progResult) int
@@ -431,7 +436,7 @@ func checkGroup(p *pool, g group, runs []nrun, each func(Case, []string, progRes
 	// chain family: the interpreter's own limit must agree with the monitor:
 	// with MaxHeightPhysical a few frames above the SHORT run's peak, the
 	// LONG run completes with the same outcome.
-	if g.Family == "chain" && len(hs) >= 2 {
+	if (g.Family == "chain" || g.Family == "forward") && len(hs) >= 2 {
 		short, long := hs[0], hs[len(hs)-1]
 		limit := short.pr.heightOn + smallStackMargin
 		c := g.kase(long.n)
@@ -539,7 +544,7 @@ func (e *explorer) runGroups(groups []group) {
 			e.mu.Lock()
 			_, dup := e.sources[k]
 			e.sources[k] = struct{}{}
-			if (g.Family == "tail" || g.Family == "multiform" || g.Family == "chain") && g.Container != "walk" && c.N >= 10 && c.Err != "first" && pr.fits {
+			if (g.Family == "tail" || g.Family == "multiform" || g.Family == "chain" || g.Family == "forward") && g.Container != "walk" && c.N >= 10 && c.Err != "first" && pr.fits {
 				if pr.heightOff > pr.heightOn {
 					e.collapsed++
 				} else {
@@ -561,7 +566,7 @@ func (e *explorer) runGroups(groups []group) {
 			}
 			r.Outcome(g.Family + g.Def + " " + blk + " err=" + c.Err + " -> " + pr.outcomeKind)
 		})
-		if g.Family == "chain" {
+		if g.Family == "chain" || g.Family == "forward" {
 			r.AddEvals(2)       // the long run, with and without the small MaxHeightPhysical
 			r.AddTransitions(6) // 5 height / base-depth comparisons + the small-stack outcome
 		}
@@ -735,6 +740,37 @@ func makeWalkGroups(thorough bool) []group {
 	return gs
 }
 
+// makeForwardGroups: forwarding forms x shapes of depth <= 1 x topology x
+// definition style (quick: labels only for the direct shape; accumulator
+// style, no error) (thorough: x argument styles x error modes none/base).
+func makeForwardGroups(thorough bool) []group {
+	var gs []group
+	args, errs := []string{"acc"}, []string{"none"}
+	if thorough {
+		args, errs = argStyles, []string{"none", "base"}
+	}
+	for _, fw := range forwardForms {
+		for _, sh := range tailShapes(1) {
+			for topo := 1; topo <= 3; topo++ {
+				for _, def := range []string{"", "labels"} {
+					if def == "labels" && !thorough && len(sh) > 0 {
+						continue
+					}
+					for _, a := range args {
+						for _, em := range errs {
+							if def == "labels" && em != "none" {
+								continue
+							}
+							gs = append(gs, group{Case{Family: "forward", Forward: fw, Def: def, Shape: sh, Topo: topo, Args: a, Err: em}})
+						}
+					}
+				}
+			}
+		}
+	}
+	return gs
+}
+
 // makeSeqGroups: loop shapes x starter x function pattern x K.
 func makeSeqGroups(shapes [][]string) []group {
 	var gs []group
@@ -834,6 +870,9 @@ func run(r *core.Run) {
 	r.Bound("multiform_stack_growth", map[string]any{"program": "in-order walk of a thin tree: left child by plain recursion from a non-last body form, right children by tail calls (self, or through a second function and back), walked twice in one runtime",
 		"left_spine_depths":           "quick 20,40,70,100,140,300; thorough 5,10,14,20,30,40,50,70,100,140,200,300,420,600 (2 frames and more per level)",
 		"shapes_of_the_non_last_call": "quick direct, if-then, let-body, funcall; thorough every shape of depth<=1", "runtime": "always fresh (fresh call stack)"})
+	r.Bound("forwarding_builtin_targets", map[string]any{"forms": forwardForms, "shape_depth": 1, "topologies": "self, 2-cycle, 3-cycle",
+		"quick": "accumulator style, no error, defun (labels for the direct shape)", "thorough": "all argument styles, error modes none/base, defun and labels",
+		"relations": "constant stack (N=10 vs 100 [vs 1000], and the long run under MaxHeightPhysical = short peak + 8), transparency"})
 	r.Bound("chain_length_dimensions", map[string]any{
 		"nest":  "tail call under d nested terminal positions, every d in 1..40 (quick: if-then, let-body, funcall, the 15 positions in rotation; self recursion) / 1..80 (thorough: each of the 15 positions and the rotation; self and 2-cycle)",
 		"ring":  "k mutually tail-recursive functions, every k in 1..16 (quick) / 1..32 (thorough), bodies wrapped in the first w=0..4 of {if-then let-body cond-else progn-last} and {funcall let*-body apply or-last}",
@@ -886,6 +925,7 @@ func run(r *core.Run) {
 		{"sequence", 0}, {"sequence", 1}, {"sequence", 2},
 		{"multiform", 0}, {"multiform", 1}, {"multiform", 2},
 		{"walk", 0},
+		{"forward", 0},
 		{"chain", 0},
 		{"closure", 0}, {"closure", 1}, {"closure", 2},
 		{"blocked", 3}, {"tail", 3},
@@ -900,6 +940,17 @@ func run(r *core.Run) {
 			gs := makeWalkGroups(r.Thorough())
 			e.runGroups(gs)
 			fmt.Fprintf(os.Stderr, "c02: multiform stack-growth walks: %d groups, %.1fs\n", len(gs), time.Since(t0).Seconds())
+			continue
+		}
+		if st.family == "forward" {
+			if r.Expired() {
+				r.Cap("soft deadline before the forwarding-builtin family")
+				continue
+			}
+			t0 := time.Now()
+			gs := makeForwardGroups(r.Thorough())
+			e.runGroups(gs)
+			fmt.Fprintf(os.Stderr, "c02: forwarding builtins as targets: %d groups, %.1fs\n", len(gs), time.Since(t0).Seconds())
 			continue
 		}
 		if st.family == "chain" {
